@@ -95,30 +95,21 @@ def check(ctx):
            consequence="a recording option reaches the update function")
     # the update function receives only state, record buffer, dt and the field values
     fr = repo.func(RUNNER, "Runner._run_stage")
-    calls = [n for n in own_nodes(fr.node) if isinstance(n, ast.Call) and norm(n.func) == "self.function"]
-    from ..dataflow import expanded_text
-    ok = len(calls) == 1 and [expanded_text(fr.node, a) for a in calls[0].args] == ["self.state", "self.running_state", "self.dt"] and \
-        [expanded_text(fr.node, k.value) for k in calls[0].keywords] == ["dict(zip(self.names, self.values))"]
-    ctx.ob("R11.1", "the update is called with (state, record buffer, dt, **values) and nothing else", ok,
-           detail=[norm(c)[:160] for c in calls], where=fr.fq, construct="self.function(...) arguments", loc=loc(fr, calls[0]) if calls else "",
-           message="the update receives extra arguments", consequence="recording configuration leaks into the physics update")
+    from ..run_rules import loop_verdicts
+    V = loop_verdicts(repo)
+    ctx.ob("R11.1", "the update is called with (state, record buffer, dt, **values) and nothing else", not V["update_args"],
+           detail=V["update_args"][:3], where=fr.fq, construct="self.function(...) arguments", loc=loc(fr, fr.node),
+           message=f"the update receives extra arguments: {V['update_args'][:1]}", consequence="recording configuration leaks into the physics update")
     observers(ctx)
     resume(ctx)
-    # R11.5 inherits C05's typestate
+    # R11.5: the label/content agreement of C05 R05.1 on the traces of the loop, for every save interval
     frs = repo.func(RUNNER, "Runner._run_stage")
-    cfg, ev, problems, prev, visits = c05.typestate(frs)
-    saves_bad = [p for p in problems if ev.get(p[1]) == "SAVE"]
-    for (src, succ, lab, bad_) in saves_bad[:1]:
-        n = cfg.nodes[succ]
-        w = c05.witness(cfg, prev, src, (succ, lab))
-        ctx.ob("R11.5", f"SAVE at L{n.line} in state {src[1]}", False, detail={"path": w}, where=frs.fq,
-               construct=f"SAVE: {norm(n.ast)[:80]} [{bad_}]", loc=loc(frs, n.ast),
-               message=f"{bad_}: the final frame depends on N mod save_every",
-               consequence="frames carrying the same step label differ between runs with different save intervals "
-                           "(step-11 frame of a save_every=4 run equals the step-12 frame of a save_every=2 run)",
-               witness={"path": w})
-    if not saves_bad:
-        ctx.ob("R11.5", "every frame is saved in the consistent typestate", True, where=frs.fq, construct="typestate")
+    bad5 = V["label_content"] + V["final_once"]
+    ctx.ob("R11.5", "every frame is saved in the consistent typestate: a frame labelled step s holds the state after s updates for save_every = 1, 2, 3",
+           not bad5, detail=bad5[:3], where=frs.fq, construct="typestate", loc=loc(frs, frs.node),
+           message=f"the frames depend on N mod save_every: {bad5[:1]}",
+           consequence="frames carrying the same step label differ between runs with different save intervals "
+                       "(step-11 frame of a save_every=4 run equals the step-12 frame of a save_every=2 run)")
     from ..effects import no_global_state
     no_global_state(ctx, "R11.9", "state kept outside the solver object and outside the saved frames: a resumed run, or a run recorded "
                                   "differently earlier in the same process, does not reproduce the uninterrupted one")
@@ -188,27 +179,11 @@ def observers(ctx):
     ctx.ob("R11.2", "_get returns its argument or a host copy without mutating it", ok, where=fg.fq, construct="_get",
            message="_get mutates its argument", consequence="saving alters device arrays")
     frs = repo.func(RUNNER, "Runner._run_stage")
-    muts = []
-    for n in ast.walk(frs.node):
-        if isinstance(n, (ast.Subscript,)) and isinstance(n.ctx, ast.Store) and norm(n.value).startswith("self.values"):
-            muts.append(f"L{n.lineno}: {norm(n)}")
-        if isinstance(n, ast.AugAssign) and norm(n.target).startswith("self.values"):
-            muts.append(f"L{n.lineno}: {norm(n)}")
-    # every frame handed to the writer is a dict built at the save (closure of today's tree, or its body read at the call site)
-    def _fresh_dict(e):
-        return isinstance(e, (ast.Dict, ast.DictComp)) or (isinstance(e, ast.Call) and norm(e.func) == "dict")
-    handed = [c for c in ast.walk(frs.node) if isinstance(c, ast.Call) and norm(c.func) == "self.data_handler.save_time_step"]
-    fresh = bool(handed)
-    for c in handed:
-        a = c.args[1] if len(c.args) > 1 else next((k.value for k in c.keywords if k.arg == "data"), None)
-        if isinstance(a, ast.Name):
-            defs = [n.value for n in ast.walk(frs.node) if isinstance(n, ast.Assign) and any(isinstance(t, ast.Name) and t.id == a.id for t in n.targets)]
-            fresh = fresh and bool(defs) and all(_fresh_dict(d) for d in defs)
-        else:
-            fresh = fresh and a is not None and _fresh_dict(a)
-    ctx.ob("R11.2", "self.values is only ever rebound; the dict handed to the writer is built fresh", not muts and fresh, detail=muts,
-           where=frs.fq, construct="self.values mutation", message=f"self.values mutated in place: {muts}",
-           consequence="the writer can alias and alter the state of the next step")
+    from ..run_rules import loop_verdicts
+    Vl = loop_verdicts(repo)
+    ctx.ob("R11.2", "self.values is only ever rebound; the dict handed to the writer is built fresh", not Vl["fresh_data"] and not Vl["label_content"],
+           detail=(Vl["fresh_data"] + Vl["label_content"])[:3], where=frs.fq, construct="self.values mutation",
+           message=f"{(Vl['fresh_data'] + Vl['label_content'])[:1]}", consequence="the writer can alias and alter the state of the next step")
     ra = repo.func(RUNNER, "RunningState.append")
     stores = [norm(n) for n in own_nodes(ra.node) if isinstance(n, ast.Assign)]
     ok = stores == ["self.values[name][:, self.step] = value"]
